@@ -29,7 +29,7 @@ def check_C01(run):
     mc_factor(run, ["q", "c"], ["p", "t"])
     g = Gen(run.seed * 1000 + 1)
     types = QUICK_TYPES if run.tier == "quick" else FULL_TYPES
-    scen = F.fam_gssv(g, "C01", sizes(run, 600, 5000), types)
+    scen = merge(F.fam_gssv(g, "C01", sizes(run, 600, 5000), types), F.fam_gssv_big(g, "C01", sizes(run, 160, 1500), types))
     run.conform("gssv", scen, ["C01."])
     return run.finish(rule="random small dyadic systems through ?gssv (orders 1..8, five orderings, u in {1..1/16}, NC/NR, nrhs 0..3, lda >= n, random tuning); "
                            "non-trivial = accepted scenario whose trace was validated clause by clause")
@@ -39,7 +39,8 @@ def check_C02(run):
     mc_factor(run, ["q", "tall", "c"], ["p", "t"])
     g = Gen(run.seed * 1000 + 2)
     types = QUICK_TYPES if run.tier == "quick" else FULL_TYPES
-    scen = merge(F.fam_gssv(g, "C02", sizes(run, 400, 3000), types), F.fam_gstrf(g, "C02", sizes(run, 400, 3000), types), F.fam_tall_n1(g, "C02", sizes(run, 40, 200), types))
+    scen = merge(F.fam_gssv(g, "C02", sizes(run, 400, 3000), types), F.fam_gstrf(g, "C02", sizes(run, 400, 3000), types), F.fam_tall_n1(g, "C02", sizes(run, 40, 200), types),
+                 F.fam_gssv_big(g, "C02", sizes(run, 120, 1200), types), F.fam_symrelax(g, "C02", sizes(run, 400, 4000), types))
     run.conform("lu", scen, ["C02."])
     return run.finish(rule="square systems through ?gssv, square and tall matrices through ?gstrf with caller-supplied perm_c")
 
@@ -47,9 +48,14 @@ def check_C02(run):
 def check_C03(run):
     g = Gen(run.seed * 1000 + 3)
     types = QUICK_TYPES if run.tier == "quick" else FULL_TYPES
-    scen = merge(F.fam_gssv(g, "C03", sizes(run, 400, 3000), types), F.fam_gstrf(g, "C03", sizes(run, 400, 3000), types), F.fam_tall_n1(g, "C03", sizes(run, 40, 200), types))
-    run.conform("lu", scen, ["C03."])
-    return run.finish(rule="every trace line carrying L,U is checked against SluStore!WellFormed")
+    scen = merge(F.fam_gssv(g, "C03", sizes(run, 400, 3000), types), F.fam_gstrf(g, "C03", sizes(run, 400, 3000), types), F.fam_tall_n1(g, "C03", sizes(run, 40, 200), types),
+                 F.fam_symrelax(g, "C03", sizes(run, 250, 2500), types), F.fam_histgrow(g, "C03", sizes(run, 120, 800), types))
+    # reuse modes: the structure after SamePattern / SamePattern_SameRowPerm (abandoned pivots, other fill) is held to the same predicate
+    hists = [h for h in tlc_histories(run) if any(k[0] != "DOFACT" for k in h)]
+    g.r.shuffle(hists)
+    scen = merge(scen, {ty: [F.history_scenario(g, "C03-hist-%05d-%s" % (i, ty), ty, hists[i % len(hists)]) for i in range(sizes(run, 150, 1200) // (1 if ty == "d" else 4))] for ty in ("d", "z", "s")})
+    run.conform("lu", scen, ["C03."], tv_env={"MODE": "light"})        # storage clauses only: the numeric replay belongs to C02
+    return run.finish(rule="every successful factorization of the ?gssv / ?gstrf / tall / SymmetricMode / reuse-history families, in four types, is checked against SluStore!WellFormed clause by clause (raw SCformat / NCformat arrays with their allocated lengths)")
 
 
 def check_C04(run):
@@ -95,6 +101,7 @@ def check_C06(run):
         plan = {"d": len(hists), "z": len(hists), "s": len(hists) // 2, "c": len(hists) // 2}
     for ty, k in plan.items():
         scen[ty] = [F.history_scenario(g, "C06-hist-%05d-%s" % (i, ty), ty, hists[i % len(hists)]) for i in range(k)]
+    scen = merge(scen, F.fam_histgrow(g, "C06", sizes(run, 120, 1500), {"d": 1.0, "z": 0.4, "s": 0.3, "c": 0.2}))
     run.conform("hist", scen, ["C06.", "C05.", "C02.", "C03.", "C04."])
     return run.finish(rule="TLC enumerates every call history of length <= 4 over Fact modes x value changes that respects the documented preconditions (SluHist); each is executed on a generated pattern and every call is validated as a fresh factorization of that call's matrix",
                       exhaustive=(run.tier != "quick"))
@@ -331,7 +338,8 @@ def check_C07(run):
     mc_mem(run, thorough_too=False)
     g = Gen(run.seed * 1000 + 7)
     types = QUICK_TYPES if run.tier == "quick" else FULL_TYPES
-    scen = merge(F.fam_storage(g, "C07", sizes(run, 100, 600), types), F.fam_storage(g, "C07", sizes(run, 50, 300), types, fn="gsisx"))
+    scen = merge(F.fam_storage(g, "C07", sizes(run, 100, 600), types), F.fam_storage(g, "C07", sizes(run, 50, 300), types, fn="gsisx"),
+                 F.fam_storage_dense(g, "C07", sizes(run, 120, 800), types))
     # vendor BLAS (the configuration the tests use): bit-for-bit on exact (D2) scenarios, structure always
     run.conform("storage", scen, ["C07."])
     # bundled C BLAS loops: bit-for-bit whatever the data
@@ -360,6 +368,14 @@ def check_C08(run):
             scen[ty] += F.fam_sweep(g, "C08", ty, [(8, 1), (7, 2)], (0, 4), family="sweepU", arrow=True)
             scen[ty] += F.fam_sweep(g, "C08", ty, [(3, 1), (4, 2), (5, 4)], (0, 4), fn="gsisx")
     run.conform("sweep", scen, ["C08.", "C07."], timeout=5, tv_env={"MODE": "light"})
+    # refactorization (factors already inside the buffer) with every shorter length of the same buffer; the outcome of a
+    # successful call is judged numerically (C02 / C05 clauses), so no light mode here
+    gr = Gen(run.seed * 1000 + 82)
+    if run.tier == "quick":
+        scenr = {"d": F.fam_sweep_reuse(gr, "C08", "d", [(4, 2)], step=8)}
+    else:
+        scenr = {ty: F.fam_sweep_reuse(gr, "C08", ty, [(3, 1), (4, 2), (5, 3)]) for ty in ("d", "s", "z", "c")}
+    run.conform("sweep_reuse", scenr, ["C08.", "C02.", "C05.", "C03."], timeout=5)
     # 64-bit index build with the bundled BLAS (value word smaller than the index word for single precision)
     g64 = Gen(run.seed * 1000 + 864)
     if run.tier == "quick":
